@@ -140,6 +140,14 @@ impl FileContextAnalyzer {
         identifiers
     }
 
+    /// The counted styles in the order of `Style::all_styles()` (independent of the map's hash order)
+    fn in_canonical_order(style_counts: &HashMap<Style, usize>) -> Vec<(Style, usize)> {
+        Style::all_styles()
+            .iter()
+            .filter_map(|style| style_counts.get(style).map(|count| (*style, *count)))
+            .collect()
+    }
+
     /// Calculate the dominant style and confidence level
     fn calculate_dominance(
         &self,
@@ -150,11 +158,12 @@ impl FileContextAnalyzer {
             return (None, ConfidenceLevel::Insufficient);
         }
 
-        // Find the most common style
-        let (dominant_style, count) = style_counts
-            .iter()
+        // Find the most common style.  The counts are walked in the canonical order of the styles:
+        // a `HashMap` iterates in a different order in every process, and with two styles counted
+        // equally often the same rename would come out differently from run to run.
+        let (dominant_style, count) = Self::in_canonical_order(style_counts)
+            .into_iter()
             .max_by_key(|(_, count)| *count)
-            .map(|(style, count)| (*style, *count))
             .unwrap();
 
         #[allow(clippy::cast_precision_loss)]
@@ -191,7 +200,7 @@ impl FileContextAnalyzer {
         }
 
         // If dominant style isn't possible, try other common styles in order
-        let mut sorted_styles: Vec<(Style, usize)> = stats.style_counts.into_iter().collect();
+        let mut sorted_styles = Self::in_canonical_order(&stats.style_counts);
         sorted_styles.sort_by_key(|(_, count)| std::cmp::Reverse(*count));
 
         sorted_styles
